@@ -158,8 +158,8 @@ def make_case(rng, backend, kind):
     r = rng.random()
     if r < 0.15:
         data = [float(round(x)) for x in rates]
-    elif r < 0.25:
-        data = [float(gen.poisson_draw(rng, x * 0.6)) for x in rates]  # deficit: muhat at/below the bound
+    elif r < 0.25 and kind == "counting":
+        data = [float(gen.poisson_draw(rng, x * 0.6)) for x in rates]  # deficit: muhat at/below the bound (concave likelihood only)
     elif r < 0.32:
         data = [gen._round(x, 3) for x in rates]  # Asimov-like non-integers
     else:
